@@ -689,5 +689,7 @@ def run(ctx):
     nc = r_pruned_consumers(ctx)
     from . import c06
     c06.r_opsem(ctx, only=("Function",))      # the weights of a composite are what the operators make them
+    from . import leafprog
+    leafprog.r_function_creation(ctx)           # a leaf function is one term with weight 1; the flag and the containers are the object's own
     ctx.floor("family constructors", n, 20)
     ctx.floor("consumers of composite weights", nc, 2)
